@@ -544,7 +544,7 @@ func (p C17) Run(c *sim.Ctx, t *sim.Tape) sim.RunResult {
 		if lr.Err == "ok" {
 			// data that does not contain paths must agree.
 			switch o.K {
-			case "ReadFile", "FRead", "FWrite", "Exists":
+			case "ReadFile", "FRead", "FWrite", "Exists", "Sub":
 				if lr.Data != wr.Data {
 					return fail(i, o, "data-differs", o.K+" returns different data", "linux "+lr.String()+" | windows "+wr.String())
 				}
